@@ -114,12 +114,27 @@ class Gen:
             self.count("positionals")
             if first_pos and r.random() < 0.3:
                 it.append("(required)")
+            multi = False
             if last_pos and r.random() < 0.3:
+                multi = True
                 if r.random() < 0.5:
                     it.append("(num 1 3)")
                 else:
                     it.append("(act append)")
                     it.append("(num 1 4)")
+            # round 4: a value name (bash writes it into the positional's placeholder; ONE name: two names give the
+            # placeholder `[A] [B]`, two words for bash where the bash semantics model has one opts token per positional),
+            # value_terminator of a multi-valued positional, last(true) on the final one
+            x = self.opt("ext", 0.25)
+            if r.random() < x * 0.6:
+                it.append("(vn %s)" % hexs("NAME%d" % k))
+                self.count("positionals-with-value-name")
+            if multi and r.random() < x:
+                it.append("(term %s)" % hexs(r.choice([";", "--", "end", "a b", "x:y", "(z)"])))
+                self.count("positionals-with-terminator")
+            if last_pos and "(required)" not in it and r.random() < x * 0.8:
+                it.append("(last)")
+                self.count("last-positionals")
             takes = True
         else:
             form = r.random()
@@ -170,6 +185,15 @@ class Gen:
                     self.count("options-with-optional-value")
                 elif r.random() < 0.1:
                     it.append("(num 1 2)")
+                # round 4: value names of an option: zsh writes the first one between the colons of the spec
+                x = self.opt("ext", 0.25)
+                if r.random() < x:
+                    if not any(i.startswith("(num") for i in it) and r.random() < 0.3:
+                        it.append("(vn %s %s)" % (hexs("VA%d" % k), hexs("VB%d" % k)))
+                        self.count("options-with-two-value-names")
+                    else:
+                        it.append("(vn %s)" % hexs(r.choice(["FILE%d", "VN%d", "v n%d", "N:%d"]) % k))
+                        self.count("options-with-value-name")
                 self.count("value-options")
             if r.random() < 0.15:
                 it.append("(global)")
@@ -244,9 +268,62 @@ class Gen:
             if "(global)" not in items[first_arg + k]:
                 items[first_arg + k] = items[first_arg + k][:-1] + " (cx %s))" % " ".join(chosen)
                 self.count("args-with-conflicts")
+        # round 4: argument groups (Arg::groups; _build_self makes the ArgGroups) and conflicts_with naming a GROUP: zsh
+        # expands the group to its members.  Not on a global argument (finding zsh-global-conflicts-group: the generator
+        # panics; profile "global_group" asks for exactly that), members in any order, possibly the conflicting arg itself
+        nargs = len(items) - first_arg
+        if nargs >= 2 and r.random() < self.opt("groups", 0.2):
+            gid = "g%d" % self.serial()
+            idx = list(range(nargs))
+            r.shuffle(idx)
+            members = idx[:r.choice([1, 2, 2, 3])]
+            for j in members:
+                # (sometimes the group twice on one argument: the member is pushed twice, unroll_args_in_group's
+                # `contains` check writes it once)
+                twice = " " + hexs(gid) if r.random() < 0.25 else ""
+                items[first_arg + j] = items[first_arg + j][:-1] + " (grp %s%s))" % (hexs(gid), twice)
+            self.count("groups")
+            want_global = bool(self.opt("global_group"))
+            if want_global:
+                # the family of the finding: a GLOBAL argument conflicts with a group; the members are global too, so
+                # the group exists wherever the argument is propagated (clap's configuration check accepts the tree)
+                j = next(j for j in range(nargs) if j not in members[:1])
+                for m in set(members + [j]):
+                    if "(global)" not in items[first_arg + m]:
+                        items[first_arg + m] = items[first_arg + m][:-1] + " (global))"
+                cand = [j]
+            else:
+                cand = [j for j in range(nargs) if "(global)" not in items[first_arg + j] and j not in members[:1]]
+            if cand:
+                k = r.choice(cand)
+                extra = ""
+                if r.random() < 0.4 and not want_global:
+                    ids = [re.match(r"\(arg (x[0-9a-f]*)", x).group(1) for x in items[first_arg:]]
+                    others = [i for j, i in enumerate(ids) if j != k]
+                    extra = " " + r.choice(others)
+                    if r.random() < 0.5:
+                        extra = extra + " " + hexs(gid)        # the group twice: its members are written twice
+                items[first_arg + k] = items[first_arg + k][:-1] + " (cx %s%s))" % (hexs(gid), extra)
+                self.count("conflicts-with-group")
+                if want_global:
+                    self.count("global-arg-conflicts-with-group")
         npos = r.choice([0, 0, 0, 1, 1, 2])
         for i in range(npos):
             items.append(self.arg(positional=True, first_pos=(i == 0), last_pos=(i == npos - 1)))
+        # round 4: a multi-valued positional BEFORE the final one (clap's configuration check wants the final one last(true)
+        # then): with a terminator it is written '*term:' and the final one keeps its line; without, it is the catch-all
+        # and the final (last) positional is left to `_arguments -S` -- the final one carries no possible values then
+        if npos == 2 and r.random() < self.opt("ext", 0.25) * 0.8:
+            a1, a2 = items[-2], items[-1]
+            if "(num" not in a1 and "(vn" not in a1 and "(required)" not in a2:
+                term = " (term %s)" % hexs(r.choice([";", "--", "a b"])) if r.random() < 0.5 else ""
+                items[-2] = a1[:-1] + " (num 1 3)%s)" % term
+                if "(last)" not in a2:
+                    a2 = a2[:-1] + " (last))"
+                if not term:
+                    a2 = re.sub(r" \(h?pv x[0-9a-f]*\)", "", a2)
+                items[-1] = a2
+                self.count("multi-valued-positional-before-last" + ("-with-terminator" if term else ""))
         if level < max_level:
             nsub = r.choice([0, 1, 2, 2, 3]) if not root else r.choice([1, 2, 2, 3, 4])
             taken = set()
@@ -489,8 +566,34 @@ def mangle_unsafe(case, built_root=None):
 
 FAMILIES = {
     "bash-dunder-lookup", "alias-without-primary", "values-not-in-powershell-elvish", "nushell-subcommand-aliases",
-    "bash-cur-is-subcommand", "zsh-optional-value", "fish-positional-values",
+    "bash-cur-is-subcommand", "zsh-optional-value", "fish-positional-values", "zsh-global-conflicts-group",
 }
+
+
+def global_conflicts_group(case):
+    """the family zsh-global-conflicts-group, read off the case: some command of the spec declares a GLOBAL argument
+    whose conflicts_with names an argument GROUP of that command (an id some argument of the command lists in
+    (grp ..)) that is not also the id of an argument"""
+    try:
+        v = sx_parse(case)
+    except Exception:
+        return False
+
+    def go(c):
+        args = [it for it in c[2:] if isinstance(it, list) and it and it[0] == "arg"]
+        ids = {a[1] for a in args}
+        groups = set()
+        for a in args:
+            for x in a[2:]:
+                if isinstance(x, list) and x and x[0] == "grp":
+                    groups.update(x[1:])
+        for a in args:
+            glob = any(isinstance(x, list) and x and x[0] == "global" for x in a[2:])
+            cx = [y for x in a[2:] if isinstance(x, list) and x and x[0] == "cx" for y in x[1:]]
+            if glob and any(y in groups and y not in ids for y in cx):
+                return True
+        return any(go(it) for it in c[2:] if isinstance(it, list) and it and it[0] == "cmd")
+    return go(v[3])
 
 
 def token_family(shell, kind, tok, a):
@@ -613,6 +716,9 @@ def failures(case, impl):
     unsafe = shell == "bash" and mangle_unsafe(case)
     if impl.startswith("PANIC") or impl.startswith("ABORT"):
         fam = "bash-dunder-lookup" if unsafe and ("unwrap" in impl or "None" in impl) else None
+        if (shell == "zsh" and "The passed arg conflicts with an arg unknown to the cmd" in impl
+                and global_conflicts_group(case)):
+            fam = "zsh-global-conflicts-group"
         return [(fam, "the %s generator does not terminate normally on a valid command tree: %s" % (shell, impl[:200]))]
     out = []
     it = top_items(impl)
@@ -748,8 +854,8 @@ def classify_known(stream, case, impl, failure):
         return None
     if failure == "diff":
         # the model has no counterpart only where the implementation panics inside the known family
-        if impl.startswith("PANIC") and fs and fs[0][0] == "bash-dunder-lookup":
-            return "bash-dunder-lookup"
+        if impl.startswith("PANIC") and fs and fs[0][0] in ("bash-dunder-lookup", "zsh-global-conflicts-group"):
+            return fs[0][0]      # (the aot area has no zsh model; in the zsh area the model panics too: no difference)
         return None
     if fs and all(f is not None for f, m in fs):
         return fs[0][0]
@@ -1207,11 +1313,10 @@ LEVEL_NOTE = LEVEL_NOTE.replace("Partial: zsh/fish/nushell have no generator mod
 AREAS = AREAS + ["zsh"]
 TRUSTED = TRUSTED + [
     "zsh generator model: extraction of Complete/ZshModel.v (+ FishModel.v's text decoration and dbuild; ExtrOcamlBasic "
-    "only), driver ocaml/zsh_driver.ml (readers of the aot and aottext spec formats; Arg::blacklist = conflicts_with is a "
-    "parameter of the model -- a function (owning command, argument) -> ids -- that the driver supplies from the (cx ..) "
-    "items of the spec: keyed by the bin name of the command, a propagated global argument reads the entry of the nearest "
-    "ancestor that declares it); value_names, value_terminator, last, argument groups and conflicts ON global arguments "
-    "are outside the model (no spec format expresses them)",
+    "only), driver ocaml/zsh_driver.ml (readers of the aot and aottext spec formats; since round 4 value_names, "
+    "value_terminator, last, Arg::blacklist = conflicts_with and Arg::groups are fields of AotTree.arg read from the "
+    "(vn ..) (term ..) (last) (cx ..) (grp ..) items by all six drivers; argument groups are modelled as _build_self makes "
+    "them from Arg::group(s), explicit ArgGroup declarations and Arg::index are outside the model)",
 ]
 
 ZSH_NAME_BYTES = ["'", "\\", ",", "$", "#", " ", "\"", "`", "(", ")", ";", "\t", "é", "%", "~", "*", "=", "\n", "-", "_",
@@ -1262,6 +1367,11 @@ def streams(tier, rng):
              ({"alias_without_primary": True}, 12 if quick else 150),    # finding alias-without-primary (class boundary)
              ({"optional_value": True}, 12 if quick else 150),           # finding zsh-optional-value (class boundary)
              ({"conflicts": 1.0}, 25 if quick else 400),                 # conflicts_with on every level with >= 2 options: the exclusion lists, in order
+             # round 4: value names, value terminators, last(true), a multi-valued positional before the last one, argument
+             # groups and conflicts_with naming a group (the exclusion list expands the group), all frequent
+             ({"ext": 0.7, "groups": 0.7, "conflicts": 0.5}, 45 if quick else 700),
+             # finding zsh-global-conflicts-group (class boundary of totality): a global argument conflicting with a group
+             ({"groups": 1.0, "global_group": True, "conflicts": 0.0}, 4 if quick else 40),
              ({"bin": "b in"}, 4 if quick else 40), ({"bin": "é-x"}, 4 if quick else 40)]
     for prof, n in plans:
         for _ in range(n):
@@ -1363,3 +1473,52 @@ LEVEL_NOTE = LEVEL_NOTE.replace(
     "admits at most one without `last`); the bash value branch is proved on the model of bash's reading of the script "
     "(validated under the installed bash on every run, incl. the Other/DirPath witnesses in corpus/C16); ")
 # ---- end round 3 ----
+
+# ---- round 4: value_names, value_terminator, last, conflicts over groups, the expect of get_arg_conflicts_with ----
+RULE = RULE + ("  Round 4: in every stream arguments also carry value names (options: one or two, with a blank or colon; "
+               "positionals: one), value terminators on multi-valued positionals, last(true) on the final positional, a "
+               "multi-valued positional before a last one (with / without terminator), argument groups (Arg::groups) and "
+               "conflicts_with naming a group (also twice, also beside argument ids); the zsh-model stream has a dense plan of "
+               "these and a plan of the family zsh-global-conflicts-group (a global argument conflicting with a group).")
+TECHNIQUE = TECHNIQUE + ("; round 4: the model's argument record extended by value_names, value_terminator, last, blacklist and "
+                         "groups (other five generator models and their proofs untouched), zsh's get_arg_conflicts_with with "
+                         "groups and with its panic sites as visible failures, every zsh theorem re-proved, the class kept by "
+                         "Command::build from the user's tree")
+LEVEL_TEXT = (LEVEL_TEXT +
+              "  Round 4 (zsh reads value_names, value_terminator, last, conflicts_with over argument groups): the argument "
+              "record of the model carries these fields (read from new spec items by the harness and all six drivers; every "
+              "generated stream uses them; the six models stay byte-identical with the real generators), Arg::_build's "
+              "num_args from value names and the positional placeholder with value names included.  zsh: every line of an option "
+              "that requires a value carries :vn: with the FIRST value name (C16_zsh_option_value_name); write_positionals_of "
+              "exactly, with last and terminators: the catch-all is the first multi-valued positional without terminator of a "
+              "command without subcommands, one with terminator t is written *t: through escape_value, after the catch-all "
+              "multi-valued AND last positionals are skipped, and a last positional has its line iff no catch-all precedes it "
+              "(C16_zsh_positionals_exact / _kept / _last / _valid).  Command::get_arg_conflicts_with is modelled with its "
+              "failure sites (panic! on an id that is neither argument nor group; expect in the global branch): an entry naming "
+              "an argument resolves to it, an entry naming a GROUP to the members of the group in argument order (argument ids "
+              "pairwise distinct), the nested-group branch and the expect on members are dead, an entry resolves iff it names an "
+              "argument or a group (C16_zsh_conflicts_groups); the exclusion list of a non-global argument is the spellings of "
+              "what its entries resolve to, in blacklist order (C16_zsh_conflicts_list).  The generator fails ONLY through a bin "
+              "name or an unresolvable conflict (C16_zsh_args_fail_only_on_conflicts); in the local boolean class (every entry "
+              "of an option / flag names an argument of its command or, if the option is not global, a group of it) nothing "
+              "panics and, with exact lookup, a script is written (C16_zsh_total_local).  The boundary is a finding: clap's "
+              "configuration check accepts a GLOBAL argument that conflicts with a GROUP, get_global_arg_conflicts_with looks "
+              "among arguments only and expects -- a one-node tree for which no script is written, whatever the texts "
+              "(C16_zsh_global_conflicts_group_refuted; the real generator panics; recorded as zsh-global-conflicts-group).  "
+              "From the USER's tree: Command::build keeps the class 'an argument that declares conflicts is not global and its "
+              "entries name arguments or groups of its command' (it only appends arguments with empty blacklists) and that class "
+              "gives the local class at every built node, so exact lookup, dispatch, coverage and totality hold for the file "
+              "generate writes for trees WITH conflicts (C16_zsh_build_keeps_conflicts_class, C16_zsh_generate_ok_conflicts); the "
+              "six-generator statements take the same class.  All earlier zsh theorems are re-proved on the extended model.")
+LEVEL_NOTE = LEVEL_NOTE.replace(
+    "zsh: conflicts_with is a parameter of the "
+    "model (the exclusion lists are compared byte for byte, their order is pinned by C16_zsh_conflicts_list), "
+    "value_names, value_terminator, last, groups and conflicts on global arguments are outside the model, ",
+    "zsh: value_names, value_terminator, last, conflicts_with (also over argument groups) are in the model since round 4 "
+    "(groups as _build_self makes them from Arg::group(s); explicit ArgGroup declarations and Arg::index are not), the "
+    "panic sites of get_arg_conflicts_with are visible failures excluded by a local boolean class (a global argument "
+    "conflicting with a group is outside it: the recorded finding zsh-global-conflicts-group); from the user's tree the class "
+    "asks conflict-declaring arguments to be non-global; two value names on a positional are not generated (the bash "
+    "semantics model has one opts word per positional); ")
+assert "since round 4" in LEVEL_NOTE
+# ---- end round 4 ----
